@@ -182,8 +182,15 @@ def run(cfg, sched):
     out.iter_log = []
     durations = list(cfg.get("durations", ()))
 
+    out.leftovers = []
+    out.hooks = cfg.get("hooks", {})
+    sim.meta_fn = lambda: len(out.calls)          # how many calls had finished when a batch was submitted
+
     def task(call_no, i):
         out.exec_log.append((call_no, i))
+        finished_at_submit = sim.submit_meta.get(sim.running_seq)
+        if finished_at_submit is not None and call_no < finished_at_submit:
+            out.leftovers.append((call_no, i, "submitted after %d calls had finished" % finished_at_submit))
         k = len(out.exec_log) - 1
         if k < len(durations):
             sim.clock += durations[k]
@@ -203,6 +210,8 @@ def run(cfg, sched):
         if hasattr(p, "_lock"):
             p._lock = parsim.SimLock(sim)
         out.parallel = p
+        if "setup" in out.hooks:
+            out.hooks["setup"](sim, p, out)
         ctx = p if cfg.get("use_with") else contextlib.nullcontext()
         try:
             with ctx:
